@@ -608,6 +608,16 @@ class ManagedBSE:
             if tk is not None and tk in queued: res.append(t)
         return res
 
+    def ticket_assigned(s, st, tk):
+        """the semaphore model has served this waiter (its ticket left the queue holding a permit)"""
+        found = []
+        def sems(v):
+            if isinstance(v, Agg):
+                if v.ty == 'Semaphore': found.append(v); return
+                for x in v.f.values(): sems(x)
+        for v in st.heap.values(): sems(v)
+        return any(tk in sem.f[3] for sem in found)
+
     def find_ticket(s, v):
         if isinstance(v, Agg):
             if v.ty == 'Acquire':
@@ -848,6 +858,12 @@ def _digest(s, st0, a, st):
                 V.append(dict(s.vio('C10', 'a per-call recycle timeout without a runtime does not yield NoRuntimeSpecified: the idle object is silently discarded', st), known='K-C10'))
             if tv[0] == 'pos' and res[:2] != ('err', 'NoRuntimeSpecified') and res[:2] != ('err', 'Closed'):
                 vio('C10', f'a non-zero wait timeout without a runtime yields {res} instead of NoRuntimeSpecified')
+        if res[0] == 'err' and res[1] == 'Timeout:Wait' and a[0] == 'poll' and st0 is not None and actor in st0.threads and 'fut' in st0.threads[actor].local:
+            # "obtains a slot if one becomes free for it before the deadline": a caller whose slot was already assigned to it when it was
+            # polled must get it, however late that poll comes (tokio's timeout polls the future before the deadline)
+            tk = s.find_ticket(st0.heap[st0.threads[actor].local['fut']])
+            if tk is not None and s.ticket_assigned(st0, tk):
+                vio('C10', 'get() reported Timeout(Wait) although a slot had been freed for this caller before it was polled')
         if res[0] in ('cancelled', 'panic') or (res[0] == 'err' and res[1].startswith('Timeout')):
             _check_abandon(s, st, cur, res, vio)
         calls.pop(actor, None)
